@@ -1662,8 +1662,16 @@ impl Prop for C19 {
             }
         }
         if racy {
-            ops.push(format!("bulk {src} {} {}", rng.range(50, 400), rng.range(20, 300)));
-            ops.push(format!("bulk {other} {} {}", rng.range(50, 400), rng.range(20, 300)));
+            // old and new database clearly differ in size (so do their digests and their page counts: a
+            // rollback-journal reader validates its cache by change counter + page count + freelist)
+            let (n1, l1) = (rng.range(50, 400), rng.range(20, 300));
+            let (mut n2, mut l2) = (rng.range(50, 400), rng.range(20, 300));
+            while (n1 * l1).abs_diff(n2 * l2) < 24_000 {
+                n2 = rng.range(50, 400);
+                l2 = rng.range(20, 300);
+            }
+            ops.push(format!("bulk {src} {n1} {l1}"));
+            ops.push(format!("bulk {other} {n2} {l2}"));
         }
         ops.push(format!("inspect {src}"));
         ops.push(format!("backup {src} 0"));
